@@ -36,6 +36,13 @@ def s1_s2_s3_execute(ctx):
         n += 1
         f = dict(txn[2])
         quotes = [e for e in p.flat_events() if e.kind == 'call' and QUOTE in e.callee]
+        extra_params = [q_ for q_ in fn.params if q_ not in ('self', 'dt', 'portfolio_id', 'order')]
+        price_t = f.get('price', ZERO)
+        if not quotes and any(s_ == V(q_) for q_ in extra_params for s_ in T.subterms(price_t)):
+            # the price comes out of something the CALLER handed over (a per-update quote memo): what is in it is decided where it is filled, not here
+            ctx.undecided('C05.S1', 'the quote is looked up once, for the ordered asset, at the update time [%s]' % cond_str(p)[:80], cs[0].site,
+                          'the price is read from the argument(s) %s' % [q_ for q_ in extra_params if any(s_ == V(q_) for s_ in T.subterms(price_t))])
+            continue
         ok = len(quotes) == 1 and quotes[0].args.get('dt') == V('dt') and quotes[0].args.get('asset_symbol') == A(order, 'asset')
         ctx.require(ok, 'C05.S1', 'the quote is looked up once, for the ordered asset, at the update time [%s]' % cond_str(p), quotes[0].site if quotes else fn.site(),
                     [str(q)[:120] for q in quotes], key='C05.S1|lookup')
@@ -144,9 +151,11 @@ def s4_fee_models(ctx):
     cons = V('consideration')
     # percentage model
     qn = 'PercentFeeModel.calc_total_cost'
-    ps = summarise(ctx, qn, policy=default_policy)
+    # decided on a freshly constructed model, in terms of the constructor's rates: how the object remembers them (fields, a table, properties) is immaterial
+    from ..lib import fresh_object_summaries
+    ip, ps = fresh_object_summaries(ctx, 'PercentFeeModel', 'calc_total_cost')
     nps = normal(ps)
-    exp = T.t_mul(T.t_add(A('self', 'commission_pct'), A('self', 'tax_pct')), ('call', ('ext', 'ABS'), (cons,), ()))
+    exp = T.t_mul(T.t_add(V('commission_pct'), V('tax_pct')), ('call', ('ext', 'ABS'), (cons,), ()))
     ok = len(ps) == 1 and len(nps) == 1 and T.teq(nps[0].value, exp)
     ctx.require(ok, 'C05.S4', 'percentage model: (commission rate + tax rate) x |consideration| on every path', ctx.fn(qn).site(),
                 '; '.join('%s -> %s' % (cond_str(p), fmt(p.value) if p.value else p.outcome) for p in ps)[:300], key='C05.S4|percent')
@@ -155,16 +164,22 @@ def s4_fee_models(ctx):
     ok = len(ps) == 1 and ps[0].outcome == 'return' and T.teq(ps[0].value, ZERO)
     ctx.require(ok, 'C05.S4', 'zero-fee model: 0 on every path', ctx.fn(qn).site(), '; '.join('%s -> %s' % (cond_str(p), fmt(p.value) if p.value else p.outcome) for p in ps)[:300],
                 key='C05.S4|zero')
-    # rates are the constructor arguments
-    ps = summarise(ctx, 'PercentFeeModel.__init__', policy=default_policy)
-    for p in normal(ps):
-        for fld in ('commission_pct', 'tax_pct'):
-            ws = heap_writes(p, fld)
-            ctx.require(len(ws) == 1 and ws[0].value == V(fld), 'C05.S4', 'PercentFeeModel.%s is the configured rate' % fld, ws[0].site if ws else None, key='C05.S4|rate|%s' % fld)
+    # the rates live on the instance: nothing at class level is written by the constructor or the fee methods (two models with different rates stay apart)
+    c_ = ctx.cls('PercentFeeModel')
+    shared = [k for k, v in c_.class_attrs.items() if isinstance(v, (ast.Dict, ast.List, ast.Set)) or (isinstance(v, ast.Call) and ast.unparse(v.func) in ('dict', 'list', 'set'))]
+    for name in shared:
+        wr = [m for m in c_.methods.values() for n in ast.walk(m.node)
+              if isinstance(n, (ast.Assign, ast.AugAssign)) and any(isinstance(t_, ast.Subscript) and isinstance(t_.value, ast.Attribute) and t_.value.attr == name
+                                                                   for t_ in (n.targets if isinstance(n, ast.Assign) else [n.target]))
+              and not any(isinstance(a_, ast.Assign) and any(isinstance(t2, ast.Attribute) and t2.attr == name and isinstance(t2.value, ast.Name) and t2.value.id == 'self'
+                                                             for t2 in a_.targets) for a_ in ast.walk(c_.methods['__init__'].node) if '__init__' in c_.methods)]
+        ctx.require(not wr, 'C05.S4', 'the rates of a fee model belong to that instance (class-level table %s is not written through self)' % name,
+                    wr[0].site() if wr else None, 'a mutable class attribute written in %s is shared by every model in the process' % (wr[0].qn if wr else ''),
+                    key='C05.S4|shared|%s' % name)
     for fld in ('commission_pct', 'tax_pct'):
         from ..lib import writers_of_attr
-        ws = writers_of_attr(ctx.M, fld)
-        ctx.require(all(w.fn.qn == 'PercentFeeModel.__init__' for w in ws) and len(ws) >= 1, 'C05.S4', 'the %s rate is set only by the constructor' % fld,
+        ws = [w for w in writers_of_attr(ctx.M, fld) if not (w.fn.cls is not None and w.fn.cls.name == 'PercentFeeModel' and (w.fn.name == '__init__' or 'setter' in ' '.join(w.fn.decorators)))]
+        ctx.require(not ws, 'C05.S4', 'the %s rate is set only by the constructor (or the model\'s own setter)' % fld,
                     ws[0].where if ws else None, key='C05.S4|rate-writer|%s' % fld)
     # sibling signatures
     sigs = {}
